@@ -2671,7 +2671,8 @@ class Node(_protocols.NodeProtocol, _display.PrettyPrintable):
 
         Raises:
             ValueError: If ``value`` is not an input or output of the node, if
-                ``num_shards < 1``, if ``pipeline_stage`` is negative, if ``axis``
+                ``num_shards < 1``, if ``pipeline_stage`` is negative, if a device
+                index is not in ``range(configuration.num_devices)``, if ``axis``
                 is out of range when the rank of ``value`` is known, if ``value``
                 is already sharded along ``axis`` for this ``configuration``, or
                 if ``pipeline_stage`` conflicts with the configuration's existing
@@ -2690,6 +2691,13 @@ class Node(_protocols.NodeProtocol, _display.PrettyPrintable):
             raise ValueError(f"num_shards must be >= 1, got {num_shards}.")
         if pipeline_stage is not None and pipeline_stage < 0:
             raise ValueError(f"pipeline_stage must be >= 0, got {pipeline_stage}.")
+        device_indices = tuple(device_indices)
+        for device_index in device_indices:
+            if not 0 <= device_index < configuration.num_devices:
+                raise ValueError(
+                    f"device index {device_index} is out of range for configuration "
+                    f"{configuration.name!r} (num_devices={configuration.num_devices})."
+                )
         shape = value.shape
         rank = len(shape) if shape is not None else None
         if rank is not None and not -rank <= axis < rank:
@@ -2701,7 +2709,6 @@ class Node(_protocols.NodeProtocol, _display.PrettyPrintable):
             axis=axis,
             simple_shardings=(_multi_device.SimpleShardedDim(dim=dim, num_shards=num_shards),),
         )
-        device_indices = tuple(device_indices)
         new_spec = _multi_device.ShardingSpec(
             value=value, device=device_indices, sharded_dims=(new_dim,)
         )
